@@ -389,7 +389,7 @@ static void k_pem_grammar(Tape &t)
 {
 	unsigned nobj = 1 + t.u8() % 4;
 	std::string text;
-	struct Exp { std::string name; Bytes full, before_defect; bool malformed; bool has_end; };
+	struct Exp { std::string name; Bytes full, before_defect; bool malformed; bool has_end; bool blank_ws = false; };
 	std::vector<Exp> exp;
 	auto eol = [&]() { unsigned e = t.u8() % 4; return std::string(e == 0 ? "\n" : e == 1 ? "\r\n" : e == 2 ? "\n" : "\r\n"); };
 	std::string hist;
@@ -435,6 +435,12 @@ static void k_pem_grammar(Tape &t)
 			text += line + eol();
 			if (li == bad_line) break;
 		}
+		if (!e.malformed && t.u8() % 8 == 7) {
+			// a line made of blanks only before the END line: "Whitespace is ignored" (bearssl_pem.h)
+			text += std::string(t.pick<const char *>({ " ", "\t", "  \t " })) + eol();
+			e.blank_ws = true;
+			hist += fmt("obj%u:blank-line ", i);
+		}
 		if (!e.malformed) {
 			if (defect == 5 && i + 1 == nobj) { e.has_end = false; hist += fmt("obj%u:truncated ", i); }
 			else text += "-----END " + nm + "-----" + eol();
@@ -456,6 +462,10 @@ static void k_pem_grammar(Tape &t)
 			// no invented byte: what was emitted is a prefix of the correct decoding of the well-formed part
 			VF_CHECK(objs[i].data.size() <= exp[i].before_defect.size() && std::equal(objs[i].data.begin(), objs[i].data.end(), exp[i].before_defect.begin()),
 				"%s: malformed object %zu: %zu bytes emitted are not a prefix of the %zu bytes decodable before the defect", desc.c_str(), i, objs[i].data.size(), exp[i].before_defect.size());
+		} else if (exp[i].blank_ws && exp[i].full.size() % 3 != 0 && objs[i].error && known("pem-blank-line-after-padding")) {
+			stats.known_finding("pem-blank-line-after-padding", "a line consisting of blanks only between the last Base64 line and the END line makes the PEM decoder report BR_PEM_ERROR when the last quartet is padded "
+				"(payload length not a multiple of 3) although whitespace is documented as ignored and the same line is accepted after an unpadded quartet (check-trailer in pemdec.t0 skips only LF)");
+			stats.excluded++;
 		} else if (exp[i].has_end) {
 			VF_CHECK(objs[i].ended && !objs[i].error, "%s: well-formed object %zu: ended=%d error=%d", desc.c_str(), i, objs[i].ended, objs[i].error);
 			VF_CHECK(objs[i].data == exp[i].full, "%s: object %zu decodes to %zu bytes%s, want %zu (spurious or lost data)", desc.c_str(), i, objs[i].data.size(),
